@@ -13,18 +13,18 @@ def mc(nsess=2, maxsteps=4, timeout=300):
     return r
 
 
-def run(num, depth, seed, nsess=3):
+def run(num, depth, seed, nsess=3, nologfile=False):
     cfg = vlib.cfg_text(dict(NSessions=nsess, Routes=ROUTES, MaxSteps=depth, Depth=depth + 1, NRoutes=11), spec="GenSpec", invariants=["PrintHist"])
     hists = vlib.tlc_simulate("SessionsGen", cfg, num + 2, depth + 1, seed)[:num]
-    return replay(hists, nsess)
+    return replay(hists, nsess, nologfile)
 
 
-def replay(hists, nsess=3):
+def replay(hists, nsess=3, nologfile=False):
     binp = vlib.go_build("sessdrv", overlay=True)
     d = vlib.scratch("sess-")
     try:
         json.dump({"behaviours": hists}, open(os.path.join(d, "in.json"), "w"))
-        rc, out, err, _ = vlib.run_driver(binp, ["-in", "in.json", "-out", "trace.ndjson"], cwd=d, timeout=900)
+        rc, out, err, _ = vlib.run_driver(binp, ["-in", "in.json", "-out", "trace.ndjson"] + (["-nologfile"] if nologfile else []), cwd=d, timeout=900)
         if rc != 0:
             raise vlib.Inconclusive("sessdrv failed: %s" % err[-1500:])
         lines = [json.loads(x) for x in open(os.path.join(d, "trace.ndjson"))]
